@@ -45,6 +45,10 @@ pub struct Case {
     /// every routine is scale-covariant, a threshold on absolute magnitudes is not
     #[serde(default)]
     pub scale2: i8,
+    /// 0: the symmetric matrix is Q L Q^T; otherwise a structured matrix with a CONSTANT diagonal
+    /// (all diagonal real parts bit-equal: a I + B with B hollow - tridiagonal, full or 2x2 blocks)
+    #[serde(default)]
+    pub eqdiag: u8,
 }
 
 pub struct C12;
@@ -158,6 +162,73 @@ fn symmetric_matrix(case: &Case, n: usize) -> (Vec<Vec<f64>>, f64, f64) {
     }
     let nrm = l.iter().fold(0.0f64, |a, b| a.max(b.abs())).max(1.0);
     (m, gap, nrm)
+}
+
+/// eigenvalues of a symmetric real matrix by the cyclic Jacobi method in plain f64 (harness-side, only
+/// used to know the eigenvalue gap of the structured matrices below)
+fn plain_eigenvalues(m: &[Vec<f64>]) -> Vec<f64> {
+    let n = m.len();
+    let mut a: Vec<Vec<f64>> = m.to_vec();
+    for _ in 0..60 {
+        let off: f64 = (0..n).map(|i| (0..n).filter(|j| *j != i).map(|j| a[i][j] * a[i][j]).sum::<f64>()).sum();
+        if off < 1e-30 {
+            break;
+        }
+        for p in 0..n {
+            for q in p + 1..n {
+                if a[p][q] == 0.0 {
+                    continue;
+                }
+                let theta = 0.5 * (2.0 * a[p][q]).atan2(a[q][q] - a[p][p]);
+                let (s, c) = theta.sin_cos();
+                for k in 0..n {
+                    let (akp, akq) = (a[k][p], a[k][q]);
+                    a[k][p] = c * akp - s * akq;
+                    a[k][q] = s * akp + c * akq;
+                }
+                for k in 0..n {
+                    let (apk, aqk) = (a[p][k], a[q][k]);
+                    a[p][k] = c * apk - s * aqk;
+                    a[q][k] = s * apk + c * aqk;
+                }
+            }
+        }
+    }
+    let mut l: Vec<f64> = (0..n).map(|i| a[i][i]).collect();
+    l.sort_by(|x, y| x.partial_cmp(y).unwrap_or(std::cmp::Ordering::Equal));
+    l
+}
+
+/// symmetric matrix with a constant diagonal: a I + B, B hollow symmetric with dyadic entries;
+/// returns None when two eigenvalues are too close for the conditioning-scaled tolerance
+fn eqdiag_matrix(case: &Case, n: usize) -> Option<(Vec<Vec<f64>>, f64, f64)> {
+    let a = ((-2.0 + 4.0 * case.sv[0]) * 8.0).round() / 8.0;
+    let mut m = vec![vec![0.0; n]; n];
+    let mut k = 0;
+    for i in 0..n {
+        m[i][i] = a;
+        for j in i + 1..n {
+            let v = ((case.angles[k % case.angles.len()] * 2.0 - 1.0) * 16.0).round() / 8.0;
+            k += 1;
+            let keep = match case.eqdiag % 3 {
+                0 => j == i + 1,          // tridiagonal (Laplacian-like)
+                1 => true,                // full
+                _ => i / 2 == j / 2 || (i + j) % 3 == 0, // 2x2 blocks plus a few couplings
+            };
+            if keep {
+                let v = if v == 0.0 { 1.0 } else { v };
+                m[i][j] = v;
+                m[j][i] = v;
+            }
+        }
+    }
+    let l = plain_eigenvalues(&m);
+    let nrm = l.iter().fold(0.0f64, |s, x| s.max(x.abs())).max(1.0);
+    let gap = if n == 1 { 1.0 } else { l.windows(2).map(|w| w[1] - w[0]).fold(f64::MAX, f64::min) };
+    if !(gap >= 0.2) {
+        return None;
+    }
+    Some((m, gap, nrm))
 }
 
 /// a matrix whose real part is singular with an all-zero pivot column at some elimination step,
@@ -400,7 +471,17 @@ where
             }
         }
         Routine::OwnEigen => {
-            let (re, gap, nrm) = symmetric_matrix(case, n);
+            let (re, gap, nrm) = if case.eqdiag != 0 {
+                match eqdiag_matrix(case, n) {
+                    Some(r) => {
+                        st.class("symmetric matrix with a constant diagonal");
+                        r
+                    }
+                    None => return Ok((1.0, false)),
+                }
+            } else {
+                symmetric_matrix(case, n)
+            };
             let s = scale_of(case);
             if s != 1.0 {
                 st.class("matrix scaled by a power of two");
@@ -584,13 +665,24 @@ where
             }
         }
         Routine::NaEigen => {
-            let (re, gap, nrm) = symmetric_matrix(case, n);
+            let (re, gap, nrm) = if case.eqdiag != 0 {
+                match eqdiag_matrix(case, n) {
+                    Some(r) => r,
+                    None => return Ok((1.0, false)),
+                }
+            } else {
+                symmetric_matrix(case, n)
+            };
             let m = build_matrix(&lay, &re, &case.parts, true, 1.0);
             let a = to_dm(&m);
             let eig = a.symmetric_eigen();
             // KNOWN finding K2: non-finite derivative parts when an off-diagonal REAL part is exactly zero
             // (nalgebra tests `is_zero()` / divides by quantities whose real part vanishes)
-            let exact_zero_offdiag = (0..n).any(|i| (0..n).any(|j| i != j && re[i][j] == 0.0));
+            // ... or when all diagonal real parts are bit-equal (the 2x2 blocks nalgebra works on then have
+            // equal diagonal or vanishing off-diagonal REAL parts, and sqrt / hypot of a number with zero
+            // real part and non-zero derivative part has no finite derivative)
+            let const_diag = n >= 2 && (1..n).all(|i| re[i][i].to_bits() == re[0][0].to_bits());
+            let exact_zero_offdiag = const_diag || (0..n).any(|i| (0..n).any(|j| i != j && re[i][j] == 0.0));
             let nonfinite = eig.eigenvalues.iter().chain(eig.eigenvectors.iter()).any(|x| x.to_flat(&dims).vals.iter().any(|v| !v.is_finite()));
             if nonfinite && exact_zero_offdiag && n >= 2 {
                 st.known_hit("C12/na-symmetric-eigen/nonfinite-diagonal-real-part", || serde_json::to_value(case).unwrap_or_default());
@@ -713,9 +805,9 @@ impl Property for C12 {
             proptest::collection::vec(any::<u8>(), 36),
             proptest::collection::vec(part_value(), 64),
             proptest::collection::vec(-3.0f64..3.0, 6),
-            prop_oneof![2 => Just(0i8), 1 => -60i8..=60],
+            (prop_oneof![2 => Just(0i8), 1 => -60i8..=60], prop_oneof![4 => Just(0u8), 1 => 1u8..=255]),
         )
-            .prop_map(|((routine, ty, n, high_kappa, sing), angles, sv, perm, parts, rhs, scale2)| Case { routine, ty, n, angles, sv, perm, high_kappa, parts, rhs, sing, scale2 })
+            .prop_map(|((routine, ty, n, high_kappa, sing), angles, sv, perm, parts, rhs, (scale2, eqdiag))| Case { routine, ty, n, angles, sv, perm, high_kappa, parts, rhs, sing, scale2, eqdiag })
             .boxed()
     }
     fn check(case: &Case, st: &mut Stats) -> Verdict {
@@ -753,6 +845,7 @@ impl Property for C12 {
                     rhs: vec![1.0, -2.0, 0.5],
                     sing: 0,
                     scale2: 0,
+                    eqdiag: 0,
                 });
             }
         }
@@ -765,7 +858,7 @@ impl Property for C12 {
         }
     }
     fn rule() -> String {
-        "generated: size n in 1..6; general matrices P (Q1 D Q2) with Givens-product orthogonal factors, singular values in [0.5,2] (condition number <= 4 known by construction; 20%: up to 1e4) and a random row permutation (pivoting paths, both parities); symmetric matrices Q L Q^T with eigenvalue gaps >= 0.25 (20%: real part already diagonal or block-diagonal, only the derivative parts couple); every entry carries arbitrary derivative parts (symmetric for the eigen routines); right-hand sides; one case in three multiplies the whole matrix (real and derivative parts) by 2^k, |k| <= 60 (exact; all routines are scale-covariant, nalgebra's symmetric_eigen excepted from scaling); scalar types Dual64, Dual2_64, DualSVec64<2>, HyperDual64, Dual3_64 and the nested Dual<Dual64>, Dual2<Dual64> for the crate's own LU / Jacobi / norm and Dual64, Dual2_64, DualSVec64<2>, Dual2SVec64<2> for nalgebra's generic LU, inverse, determinant, symmetric_eigen; singular stratum: exact dyadic matrices with a zero column / repeated row / dependent row and non-zero derivative parts. Oracle = validity predicates evaluated in the reference algebra on the library's output: A x = b, A A^-1 = I, det = Leibniz expansion (all parts, which contains Jacobi's formula), A V = V diag(lambda), V^T V = I, lambda ascending (crate Jacobi), which contains Hellmann-Feynman; tolerance 64 n u (1+kappa)^(1+order) * (summed magnitude of the identity's terms) for the direct methods, crate Jacobi 64 n u amp^(1+2 order) with amp = 1 + norm/gap; nalgebra symmetric_eigen: real part 1e7 u amp (its own accuracy), derivative parts 64 n u amp^(1+2 order) - cases beyond that are occurrences of the KNOWN finding C12/na-symmetric-eigen/derivative-parts (excluded and counted); the singular stratum must be reported (Err / None / false) and never yield non-finite output. Non-trivial: n >= 3, a row swap happened, non-zero derivative parts.".into()
+        "generated: size n in 1..6; general matrices P (Q1 D Q2) with Givens-product orthogonal factors, singular values in [0.5,2] (condition number <= 4 known by construction; 20%: up to 1e4) and a random row permutation (pivoting paths, both parities); symmetric matrices Q L Q^T with eigenvalue gaps >= 0.25 (20%: real part already diagonal or block-diagonal, only the derivative parts couple; another 20%: a constant diagonal a I + B with hollow dyadic B - tridiagonal, full or block-structured - whose eigenvalue gap is computed by a plain-float Jacobi iteration of the harness, gap >= 0.2); every entry carries arbitrary derivative parts (symmetric for the eigen routines); right-hand sides; one case in three multiplies the whole matrix (real and derivative parts) by 2^k, |k| <= 60 (exact; all routines are scale-covariant, nalgebra's symmetric_eigen excepted from scaling); scalar types Dual64, Dual2_64, DualSVec64<2>, HyperDual64, Dual3_64 and the nested Dual<Dual64>, Dual2<Dual64> for the crate's own LU / Jacobi / norm and Dual64, Dual2_64, DualSVec64<2>, Dual2SVec64<2> for nalgebra's generic LU, inverse, determinant, symmetric_eigen; singular stratum: exact dyadic matrices with a zero column / repeated row / dependent row and non-zero derivative parts. Oracle = validity predicates evaluated in the reference algebra on the library's output: A x = b, A A^-1 = I, det = Leibniz expansion (all parts, which contains Jacobi's formula), A V = V diag(lambda), V^T V = I, lambda ascending (crate Jacobi), which contains Hellmann-Feynman; tolerance 64 n u (1+kappa)^(1+order) * (summed magnitude of the identity's terms) for the direct methods, crate Jacobi 64 n u amp^(1+2 order) with amp = 1 + norm/gap; nalgebra symmetric_eigen: real part 1e7 u amp (its own accuracy), derivative parts 64 n u amp^(1+2 order) - cases beyond that are occurrences of the KNOWN finding C12/na-symmetric-eigen/derivative-parts (excluded and counted); the singular stratum must be reported (Err / None / false) and never yield non-finite output. Non-trivial: n >= 3, a row swap happened, non-zero derivative parts.".into()
     }
     fn assumptions() -> Vec<String> {
         vec![
